@@ -18,7 +18,7 @@ import GoldModel.Lemmas.ProgRoundTrip
   `forward` or `external "lib"` the method has NO body), `const c = literal [multiLang]`,
   `[memory] f : T [private|…]* [absolute x]`, `class aName [(aParent)]`, `module aName`, `uses a, b, …`,
   `type aName : T`;
-* types `T` — `Name`, `Name(n)`, `refTo|listOf Name [inverse x]`, `lit to lit`, `[Name]`, `.Name`,
+* types `T` — `Name`, `Name(n)`, `refTo|listOf [[opt, …]] Name [inverse x]`, `lit to lit`, `[Name]`, `.Name`,
   `array|sequence [Name | lit to lit] [[…]] of Name`, `instanceOf Name`, enumerations `( a, b = 1, … )` and sums
   `A + ( … ) + B` of names and enumerations (these forms in parameters and record fields), and in variables, fields and
   type declarations also `record [(Parent)] (name : T)* endrecord`, `proc [(params)]`, `func [(params)] return Name`;
@@ -187,7 +187,7 @@ private def sample : Prog Ex :=
         ⟨some (tk Kind.Const "const" 3 9), tk Kind.Identifier "n" 3 15, tk Kind.Colon ":" 3 17, .basic (tk Kind.Identifier "Int" 3 19)⟩
         [(tk Kind.Comma "," 3 22,
           ⟨some (tk Kind.InOut "inout" 3 24), tk Kind.Identifier "m" 3 30, tk Kind.Colon ":" 3 32,
-            .ref (tk Kind.RefTo "refTo" 3 34) (tk Kind.Identifier "aBar" 3 40) none⟩)]
+            .ref (tk Kind.RefTo "refTo" 3 34) none (tk Kind.Identifier "aBar" 3 40) none⟩)]
         (tk Kind.CBracket ")" 3 44)))
       [.plain (tk Kind.Private "private" 3 46), .plain (tk Kind.Override "override" 3 54)]
       (some ([ .lvar (tk Kind.Var "var" 4 2) (tk Kind.Identifier "i" 4 6) (tk Kind.Colon ":" 4 8)
